@@ -33,7 +33,7 @@ func runReplay(i int, rp Replay) ReplayOut {
 		out.Diverged = rp.Keys[r.Steps]
 	}
 	out.Class, out.Detail = judge(rp.Cfg, r, o)
-	logRun(rp.ID, rp.Cfg, r, out.Class)
+	logRun(rp.ID, rp.Cfg, r, out.Class, o.Snapshot())
 	return out
 }
 
